@@ -25,7 +25,8 @@ Definition valid_code (c : Z) : bool :=
   (c =? 0) || (c =? 1) || (c =? 2) || (c =? 3) || (c =? 5) || (c =? 7).
 
 (* read_type; None = any DecodeError.  The overflow length is itself read with read_value, which
-   starts with read_type: the recursion is bounded by the fuel (one byte is consumed per level). *)
+   starts with read_type; since fix ea50dd5 the inner descriptor may not carry an overflow length
+   itself, so the recursion is one level deep (the fuel is kept for the structural recursion). *)
 Fixpoint dec_type (fuel : nat) (bs : list N) : option (Z * Z * list N) :=
   match fuel with
   | O => None
@@ -36,6 +37,9 @@ Fixpoint dec_type (fuel : nat) (bs : list N) : option (Z * Z * list N) :=
       let code := Z.of_N b mod 16 in
       let l := Z.of_N b / 16 in
       if l =? 15 then
+        (* the length is a typed integer scalar; its own descriptor must not ask for another
+           length value (InvalidLengthValue, fix ea50dd5) *)
+        if (match r with b2 :: _ => Z.of_N b2 / 16 =? 15 | [] => false end) then None else
         match dec_type f r with
         | Some (c, l2, r2) =>
           match width_of_code c with
@@ -82,7 +86,8 @@ Inductive rvalue :=
 | RFloat (b : Z)
 | RFloats (l : list (option Z)).
 
-(* read back: Ok | Err (any error kind) | panic *)
+(* read back: Ok | Err (any error kind) | panic (no decoder of the repaired tree reaches it:
+   NeverPanics.v) *)
 Inductive rres (A : Type) := ROk (a : A) | RErr | RPanic.
 Arguments ROk {A} a. Arguments RErr {A}. Arguments RPanic {A}.
 
@@ -149,7 +154,7 @@ Definition int_entry (w : width) (x : list N) : rres (option Z) :=
   match classify w (dec_int w x) with
   | IValue n => ROk (Some n)
   | IMissing => ROk None
-  | _ => RPanic                                      (* todo!("unhandled iN array value") *)
+  | _ => RErr                                        (* InvalidArrayValue *)
   end.
 
 Definition dec_info_int_gen (array : bool) (bs : list N) : rres rvalue :=
@@ -210,7 +215,7 @@ Definition float_entry (x : list N) : rres (option Z) :=
   match classify_f (le_val x) with
   | FValue b => ROk (Some b)
   | FMissing => ROk None
-  | _ => RPanic
+  | _ => RErr                                        (* InvalidArrayValue *)
   end.
 
 Definition dec_info_float_gen (array : bool) (bs : list N) : rres rvalue :=
@@ -310,7 +315,7 @@ Definition enc_fmt_ints (vals : list sample) : res (list N) :=
   end.
 
 (* one sample of read_i{8,16,32}_array_values: EndOfVector entries are dropped (filter_map),
-   reserved codes reach todo!(), and a lone missing entry is the missing value *)
+   reserved codes are InvalidValue, and a lone missing entry is the missing value *)
 Fixpoint sample_entries (w : width) (xs : list (list N)) : rres (list (option Z)) :=
   match xs with
   | [] => ROk []
@@ -319,7 +324,7 @@ Fixpoint sample_entries (w : width) (xs : list (list N)) : rres (list (option Z)
     | IValue n => rbind (sample_entries w r) (fun l => ROk (Some n :: l))
     | IMissing => rbind (sample_entries w r) (fun l => ROk (None :: l))
     | IEov => sample_entries w r
-    | IReserved _ => RPanic
+    | IReserved _ => RErr                             (* InvalidValue *)
     end
   end.
 
@@ -349,7 +354,7 @@ Fixpoint dec_scalars (w : width) (ns : nat) (bs : list N) : rres (list (option Z
       match classify w (dec_int w x) with
       | IValue n => rbind (dec_scalars w ns' r) (fun l => ROk (Some n :: l))
       | IMissing => rbind (dec_scalars w ns' r) (fun l => ROk (None :: l))
-      | _ => RPanic                                   (* todo!("unhandled iN value") *)
+      | _ => RErr                                     (* InvalidValue *)
       end
     end
   end.
@@ -361,10 +366,10 @@ Definition dec_fmt_int_gen (scalar : bool) (ns : nat) (bs : list N) : rres fmt_b
   match read_type bs with
   | None => RErr
   | Some (code, len, r) =>
-    if code =? 0 then RPanic                          (* .expect("unhandled type") *)
+    if code =? 0 then RErr                            (* TypeMismatch *)
     else if (len =? 0) && negb (code =? 7) then RErr  (* InvalidLength *)
     else match width_of_code code with
-    | None => RPanic                                  (* todo!("unhandled type") *)
+    | None => RErr                                    (* TypeMismatch *)
     | Some w =>
       if scalar && (len =? 1) then rbind (dec_scalars w ns r) (fun l => ROk (BScalars l))
       else rbind (dec_samples w ns (Z.to_nat len) r) (fun l => ROk (BVectors l))
@@ -411,7 +416,7 @@ Fixpoint fsample_entries (xs : list (list N)) : rres (list (option Z)) :=
     | FValue b => rbind (fsample_entries r) (fun l => ROk (Some b :: l))
     | FMissing => rbind (fsample_entries r) (fun l => ROk (None :: l))
     | FEov => fsample_entries r
-    | FReserved _ => RPanic
+    | FReserved _ => RErr
     end
   end.
 
@@ -437,7 +442,7 @@ Fixpoint dec_fscalars (ns : nat) (bs : list N) : rres (list (option Z)) :=
       match classify_f (le_val x) with
       | FValue b => rbind (dec_fscalars ns' r) (fun l => ROk (Some b :: l))
       | FMissing => rbind (dec_fscalars ns' r) (fun l => ROk (None :: l))
-      | _ => RPanic
+      | _ => RErr
       end
     end
   end.
@@ -446,12 +451,12 @@ Definition dec_fmt_float_gen (scalar : bool) (ns : nat) (bs : list N) : rres fmt
   match read_type bs with
   | None => RErr
   | Some (code, len, r) =>
-    if code =? 0 then RPanic
+    if code =? 0 then RErr
     else if (len =? 0) && negb (code =? 7) then RErr
     else if code =? 5 then
       if scalar && (len =? 1) then rbind (dec_fscalars ns r) (fun l => ROk (BScalars l))
       else rbind (dec_fsamples ns (Z.to_nat len) r) (fun l => ROk (BVectors l))
-    else RPanic
+    else RErr
   end.
 
 Definition dec_fmt_float := dec_fmt_float_gen true.
